@@ -626,6 +626,11 @@ class Load11Engine(DeliveryEngine):
     name = 'load11'
     props = ()
 
+    def plan(self, prop, tier):
+        p = DeliveryEngine.plan(self, prop, tier)
+        p['runs'] = p['runs'] * 2 // 5
+        return p
+
     def describe(self, prop):
         d = DeliveryEngine.describe(self, prop)
         d['rule'] = ('seeded populations with duplicate, null and dangling keys written as files on the simulated disk; counts '
@@ -656,7 +661,7 @@ class Load11Engine(DeliveryEngine):
         for _ in range(rng.randint(1, 3)):
             cli.append({'r': rng.sample(rels, rng.randint(0, min(2, len(rels)))) + ([97] if rng.random() < 0.1 else []),
                         'k': rng.sample(kinds, rng.randint(0, min(2, len(kinds)))),
-                        'tool': rng.choice(['xtuml', 'xtuml', 'xtuml_module', 'bridgepoint'] if rng.random() < 0.15
+                        'tool': rng.choice(['xtuml', 'xtuml_module', 'bridgepoint', 'bridgepoint_module'] if rng.random() < 0.12
                                            else ['xtuml', 'xtuml', 'xtuml_module']),
                         'files': rng.randint(1, 3), 'order': rng.getrandbits(20)})
         case['cfg']['cli'] = cli
@@ -822,8 +827,9 @@ class Load11Engine(DeliveryEngine):
                     else:
                         argv = sys.argv
                         sys.argv = ['consistency_check'] + list(args)
+                        modname = 'bridgepoint.consistency_check' if tool == 'bridgepoint_module' else 'xtuml.consistency_check'
                         try:
-                            runpy.run_module('xtuml.consistency_check', run_name='__main__')
+                            runpy.run_module(modname, run_name='__main__')
                             got = None
                         except SystemExit as e:
                             got = e.code
@@ -834,7 +840,7 @@ class Load11Engine(DeliveryEngine):
                         if exp_a + elo == 0 and ehi > 0:
                             continue
                         if bool(got) is not want_nonzero:
-                            raise Violation('cli', 'python -m xtuml.consistency_check %s exited with %r, the files hold %d '
+                            raise Violation('cli', 'python -m ' + modname + ' %s exited with %r, the files hold %d '
                                             'association and %d..%d identifier violations' % (' '.join(args), got, exp_a, elo, ehi),
                                             'cli:exit-status')
                         bump(probes, 'cli_exit_nonzero' if want_nonzero else 'cli_exit_zero')
